@@ -78,7 +78,7 @@ func judgeC05(c *fw.Ctx, sc *SnapCase) {
 func init() {
 	pr := &Profile{Sets: defaultSets, Kinds: allKinds}
 	fw.Register(&fw.Prop{
-		ID: "C05", Cases: tierN(40000, 1500000),
+		ID: "C05", Cases: tierN(200000, 3000000),
 		Run: func(c *fw.Ctx) {
 			sc, why := genSnapCase(c.Rng, pr)
 			if sc == nil {
